@@ -20,7 +20,7 @@ RULE = ("tables of 0..N rows for Interval, Bed6, Bed12, BedGraph, NarrowPeak, Ch
         "(calls / one stream) on a plain or gzip target; 'w' writer for the first k pieces then one appending writer per piece or "
         "one appending writer fed by a stream, for every k, plain or gzip; only appending writers on a new file, a new gzip file, "
         "or an existing empty file; header-bearing formats (VCF, a delimited buffer with a column-name header) with ZERO rows in total "
-        "(one empty table, several empty pieces, a stream of empty chunks); lazily read tables re-written from row-indexed pieces; HEADERS THAT BELONG TO THE TABLE: in-memory tables carrying a header context of their own "
+        "(one empty table, several empty pieces, a stream of empty chunks); lazily read tables re-written from row-indexed pieces (slices, masks, index lists, and RE-ORDERINGS of a contiguous run of source lines: inside permuted with first and last line in place, adjacent swap, rotation, reversal, order of a column); HEADERS THAT BELONG TO THE TABLE: in-memory tables carrying a header context of their own "
         "(VCF / SAM / '#' comment blocks, generated per case) must be written with exactly that header, source files of the lazy ops "
         "carry per-case headers, and in many cases ANOTHER file of the same format with another header is read lazily first and kept "
         "alive in the same process; observables: the exact bytes on disk, the table read back, the number of records reported by bnp.count_entries, and the bytes of the write -> read (default, lazy) -> "
@@ -458,12 +458,33 @@ def _select(n, sel):
 
 def g_selection(rng, n):
     r = rng.random()
-    if r < 0.45:
+    if r < 0.35:
         a = rng.randrange(0, n + 1)
         b = rng.randrange(a, n + 1)
         return {"slice": [a, b, rng.choice([1, 1, 1, 2])]}
-    if r < 0.75:
+    if r < 0.55:
         return {"mask": [rng.random() < 0.6 for _ in range(n)]}
+    if r < 0.75 and n >= 3:
+        # RE-ORDERINGS of a run of source lines (what sort_by / an index array give): the run a..b with its first and
+        # last line kept in place and the inside permuted, a rotation, the reversal, or any permutation — the selected
+        # bytes are then one contiguous block of the source, every line once, but NOT in source order
+        a = rng.randrange(0, n - 2)
+        b = rng.randrange(a + 3, n + 1)
+        run = list(range(a, b))
+        kind = rng.choice(["ends_fixed", "ends_fixed", "rotate", "reverse", "shuffle"])
+        if kind == "ends_fixed" and len(run) >= 4:
+            inner = run[1:-1]
+            while inner == run[1:-1]:
+                rng.shuffle(inner)
+            run = [run[0]] + inner + [run[-1]]
+        elif kind == "rotate":
+            k = rng.randrange(1, len(run))
+            run = run[k:] + run[:k]
+        elif kind == "reverse":
+            run.reverse()
+        else:
+            rng.shuffle(run)
+        return {"idx": run}
     return {"idx": sorted(rng.sample(range(n), rng.randrange(0, n + 1))) if rng.random() < 0.6 else [rng.randrange(n) for _ in range(rng.choice([1, 2, 3]))]}
 
 
@@ -483,6 +504,28 @@ def rewrite_cases(tier, rng):
             if pr:
                 case["prior"] = pr
             yield case
+        # one re-ordered piece written as it is (what `t.sort_by(...)` / `t[order]` then `f.write` does): all source
+        # lines between the first and the last selected one, each once, in another order
+        for _ in range(max(4, per // 8)):
+            n = rng.choice([4, 5, 6, 9])
+            rows = [g_row(rng, fmt) for _ in range(n)]
+            order = list(range(n))
+            kind = rng.choice(["ends_fixed", "ends_fixed", "swap", "sorted_by_cell"])
+            if kind == "ends_fixed":
+                a = rng.randrange(0, n - 3)
+                b = rng.randrange(a + 4, n + 1)
+                inner = order[a + 1:b - 1]
+                while inner == order[a + 1:b - 1]:
+                    rng.shuffle(inner)
+                order = [a] + inner + [b - 1]
+            elif kind == "swap":
+                i = rng.randrange(0, n - 1)
+                order[i], order[i + 1] = order[i + 1], order[i]
+            else:
+                j = rng.randrange(len(T[fmt][3]))
+                order.sort(key=lambda i: repr(rows[i][j]))
+            yield {"op": "rewrite", "fmt": fmt, "rows": rows, "sel": [{"idx": order}],
+                   "how": rng.choice(["successive", "successive", "concat"]), "gz": rng.random() < 0.2, "src_hdr": g_header(rng, fmt)}
 
 
 REPLACE_FMTS = ["bed3", "bed6", "bdg", "narrowpeak", "gtf", "sam", "vcfs", "fastq", "sizes", "pairs"]
@@ -1029,7 +1072,7 @@ def model_request(c):
 
 def nontrivial(c):
     if c["op"] == "rewrite":
-        return len(c["sel"]) >= 2 or c["how"] != "concat"
+        return len(c["sel"]) >= 2 or c["how"] != "concat" or any("idx" in s and s["idx"] != sorted(s["idx"]) for s in c["sel"])
     if c["op"] in ("replace", "again"):
         return True
     if c["cuts"] or c["mode"] != "plain":
